@@ -35,6 +35,13 @@ def spectrum(fam, n, kappa, g):
         lam = torch.where(torch.arange(n) % 2 == 0, lo, hi)
         lam[0], lam[1] = 1.0, kappa
         return lam
+    if fam.startswith("lrid"):
+        # identity + rank-d perturbation: d + 1 distinct eigenvalues (1 with multiplicity n - d)
+        d = min(max(n - 1, 1), int(fam[4:] or 2))
+        lam = torch.ones(n, dtype=F64)
+        for i in range(d):
+            lam[n - 1 - i] = kappa ** ((d - i) / d)
+        return lam
     if fam.startswith("few"):
         d = min(n, int(fam[3:] or 3))
         vals = [kappa ** (i / max(d - 1, 1)) for i in range(d)]
@@ -60,7 +67,12 @@ def build(spec):
             As.append(As[0].clone())
             lams.append(lams[0].clone())
             continue
-        lam = spectrum(spec["fam"], n, spec["kappa"], g) * float(spec.get("scale", 1.0))
+        fam_b, kappa_b = spec["fam"], spec["kappa"]
+        if b == 0 and spec.get("fam0"):
+            # heterogeneous batch: member 0 has its own spectrum family (e.g. few distinct eigenvalues: its Krylov spaces
+            # are exhausted after a few iterations while the other members are generic)
+            fam_b, kappa_b = spec["fam0"][0], spec["fam0"][1]
+        lam = spectrum(fam_b, n, kappa_b, g) * float(spec.get("scale", 1.0))
         if spec["fam"] == "identity":
             a = torch.diag(lam)
         else:
@@ -125,6 +137,39 @@ def build(spec):
                 raise ValueError(pk)
             Ms.append(mi)
         Minv = torch.stack(Ms).reshape(*batch, n, n)
+    # column kinds e(xhausted early) / d(ominated): the rhs lies in an invariant subspace of dimension 2 of the (preconditioned) operator,
+    # r0 = H^-1 (c1 u_a + c2 u_b) with H = Minv^1/2 and u eigenvectors of H A H: its Krylov space has dimension 2, so the
+    # column has converged to rounding level after two loop bodies while the other columns are still far from it
+    if "e" in spec["cols"] or "d" in spec["cols"]:
+        ge = torch.Generator().manual_seed(int(spec["vseed"]) ^ 0x5EED)
+        rhs = rhs.clone()
+        rflat = rhs.reshape(RB, n, c)
+        for b in range(RB):
+            a = As[b]
+            if Minv is not None:
+                w, v = torch.linalg.eigh(Minv.reshape(B, n, n)[b])
+                h = (v * torch.sqrt(w.clamp_min(1e-300)).unsqueeze(0)) @ v.T
+                hinv = (v / torch.sqrt(w.clamp_min(1e-300)).unsqueeze(0)) @ v.T
+            else:
+                h = hinv = torch.eye(n, dtype=F64)
+            _, u = torch.linalg.eigh(h @ a @ h)
+            for j, kd in enumerate(spec["cols"]):
+                if kd not in "ed":
+                    continue
+                ia = int(torch.randint(0, n, (1,), generator=ge))
+                ib = (ia + 1 + int(torch.randint(0, max(n - 1, 1), (1,), generator=ge))) % n
+                cf = 0.5 + torch.rand(2, generator=ge, dtype=F64)
+                comb = cf[0] * u[:, ia] + cf[1] * u[:, ib]
+                if kd == "d":
+                    # d(ominated): plus a 1e-5 generic component - after two loop bodies the residual is ~1e-5, below a
+                    # stop_updating_after of 1e-3 but far above eps: only the has_converged mask keeps the column frozen
+                    comb = comb + 1e-5 * torch.randn(n, generator=ge, dtype=F64)
+                vv = hinv @ comb
+                rflat[b, :, j] = vv / vv.norm() * (0.5 + float(torch.rand(1, generator=ge, dtype=F64)))
+        rhs = rflat.reshape(*rb, n, c)
+        rhs_full = rhs
+        if spec.get("rhs_vec"):
+            rhs = rhs.reshape(n)
     # initial guess
     xk = spec.get("x0", "none")
     x0 = None
@@ -138,6 +183,10 @@ def build(spec):
         x0 = torch.randn(n, 1, generator=g, dtype=F64)
     elif xk == "exact":     # residual of the guess is rounding noise: the early-convergence shortcut
         x0 = xstar.clone()
+    elif xk == "exact0":    # heterogeneous guess: exact for column 0 only (has_converged is True there and False elsewhere)
+        x0 = xstar.clone()
+        if c > 1:
+            x0[..., 1:] = torch.randn(*batch, n, c - 1, generator=g, dtype=F64) * rhs_full.expand(*batch, n, c)[..., 1:].norm(dim=-2, keepdim=True)
     elif xk == "near":
         x0 = xstar * (1.0 + 1e-6 * torch.randn(xstar.shape, generator=g, dtype=F64))
     elif xk == "nan":
